@@ -220,6 +220,9 @@ func defaultArgs(fn *ssa.Function) []Val {
 			args[i] = Val{K: KSlice, S: fmt.Sprintf("p%d", i), Len: -1}
 		case *types.Map:
 			args[i] = Val{K: KPtr, S: fmt.Sprintf("p%d", i)}
+		case *types.Struct:
+			// a struct passed by value: its fields are read as input memory p<i>.f
+			args[i] = Val{K: KAgg, S: fmt.Sprintf("p%d", i), Agg: map[string]cell{}}
 		default:
 			args[i] = top
 		}
